@@ -340,13 +340,70 @@ func (c *tplCache) allLoop(fn *ssa.Function, l *core.Loop) (container ssa.Value,
 	case *ssa.Phi:
 		phi = x
 	}
-	if phi != nil && phi.Block() == l.Header {
+	if phi != nil && phi.Block() == l.Header && indexCoversAll(phi, l, ia.X) {
 		idxOK = true
 	}
 	if !idxOK {
 		return nil, "", false
 	}
 	return ia.X, op, true
+}
+
+// indexCoversAll: the loop counter phi visits every index of container: a range loop (-1, +1, next < len), an ascending
+// loop (0, +1, i < len) or a descending one (len-1, -1, i >= 0). A loop that starts at 1 or stops before 0 leaves a
+// shard out (its lock is then never taken, or never released).
+func indexCoversAll(phi *ssa.Phi, l *core.Loop, container ssa.Value) bool {
+	isLen := func(v ssa.Value) bool {
+		c, ok := stripConv(v).(*ssa.Call)
+		if !ok {
+			return false
+		}
+		b, ok := c.Common().Value.(*ssa.Builtin)
+		return ok && b.Name() == "len" && len(c.Common().Args) == 1 && c.Common().Args[0] == container
+	}
+	var init, step ssa.Value
+	for i, e := range phi.Edges {
+		if l.Blocks[phi.Block().Preds[i]] {
+			step = e
+		} else {
+			init = e
+		}
+	}
+	sb, ok := step.(*ssa.BinOp)
+	if !ok || init == nil {
+		return false
+	}
+	one := func(v ssa.Value) bool { c, ok := ssaConstInt(v); return ok && c == 1 }
+	// exit test in the header
+	ifi, ok := phi.Block().Instrs[len(phi.Block().Instrs)-1].(*ssa.If)
+	if !ok {
+		return false
+	}
+	cond, ok := ifi.Cond.(*ssa.BinOp)
+	if !ok {
+		return false
+	}
+	bodyOnTrue := l.Blocks[phi.Block().Succs[0]]
+	if !bodyOnTrue {
+		return false
+	}
+	c0, isC := ssaConstInt(init)
+	switch {
+	case sb.Op == token.ADD && sb.X == ssa.Value(phi) && one(sb.Y) && isC && c0 == -1:
+		// range form: next = phi+1; next < len
+		return cond.Op == token.LSS && cond.X == ssa.Value(sb) && isLen(cond.Y)
+	case sb.Op == token.ADD && sb.X == ssa.Value(phi) && one(sb.Y) && isC && c0 == 0:
+		return (cond.Op == token.LSS || cond.Op == token.NEQ) && cond.X == ssa.Value(phi) && isLen(cond.Y)
+	case sb.Op == token.SUB && sb.X == ssa.Value(phi) && one(sb.Y):
+		ib, ok := init.(*ssa.BinOp)
+		if !ok || ib.Op != token.SUB || !isLen(ib.X) || !one(ib.Y) {
+			return false
+		}
+		if k, ok := ssaConstInt(cond.Y); ok && cond.X == ssa.Value(phi) {
+			return (cond.Op == token.GEQ && k == 0) || (cond.Op == token.GTR && k == -1)
+		}
+	}
+	return false
 }
 
 // lockAnalysis computes, per instruction, the set of locks that must be held before it executes.
